@@ -5,6 +5,8 @@ type nat =
 | O
 | S of nat
 
+val option_map : ('a1 -> 'a2) -> 'a1 option -> 'a2 option
+
 val fst : ('a1 * 'a2) -> 'a1
 
 val snd : ('a1 * 'a2) -> 'a2
@@ -75,6 +77,10 @@ module Coq_Pos :
 
   val iter : ('a1 -> 'a1) -> 'a1 -> positive -> 'a1
 
+  val div2 : positive -> positive
+
+  val div2_up : positive -> positive
+
   val size : positive -> positive
 
   val compare_cont : comparison -> positive -> positive -> comparison
@@ -117,6 +123,8 @@ module N :
   val pos_div_eucl : positive -> n -> n * n
 
   val coq_lor : n -> n -> n
+
+  val coq_land : n -> n -> n
 
   val ldiff : n -> n -> n
  end
@@ -177,7 +185,15 @@ module Z :
 
   val rem : z -> z -> z
 
+  val div2 : z -> z
+
   val log2 : z -> z
+
+  val shiftl : z -> z -> z
+
+  val shiftr : z -> z -> z
+
+  val coq_lor : z -> z -> z
 
   val coq_land : z -> z -> z
 
@@ -275,6 +291,7 @@ type cres =
 | CValueError
 | CUnicodeDecodeError
 | CAbort
+| CBufferOverflow
 
 val uchar_accepts : bool -> z -> bool -> z -> bool
 
@@ -285,3 +302,27 @@ val from_ordinal_padded : z -> z -> z -> cres
 val uchar_to_unicode : bool -> z -> bool -> z -> z -> z -> cres
 
 val py_format_char : z -> z -> z -> cres
+
+val cchar : z -> z
+
+val enc2 : z -> z list
+
+val enc3 : z -> z list
+
+val enc4 : z -> z list
+
+val utf8_enc_c : z -> z list
+
+val is_cont : z -> bool
+
+val is_surrogate : z -> bool
+
+val utf8_decode : z list -> z list option
+
+val cHARS_SIZE : z
+
+val from_ordinal_padded_b : z -> z -> z -> cres
+
+val uchar_to_unicode_b : bool -> z -> bool -> z -> z -> z -> cres
+
+val utf8_ref : z -> z list
